@@ -523,6 +523,14 @@ impl Run {
                 let opn = match name { "obj_create" => "ObjCreate", "obj_update" => "ObjUpdate", "obj_delete" => "ObjDelete", _ => "ObjRemove" };
                 self.emit(opn, r, json!({"o": tok(&id), "vsha": canon_sha(&Value::from(obj))}), &out, json!({}));
             }
+            "foreign" => {
+                // the application stores an item of its own next to blocks and packs (meld forwards such items)
+                let key = format!("notes-{}-{}.txt", rname(r), op["n"].as_u64().unwrap_or(0) % 3);
+                let bytes = format!("foreign item {} of {}", op["n"].as_u64().unwrap_or(0), rname(r)).into_bytes();
+                self.stores[r].lock().unwrap().insert_item(&key, Arc::new(bytes));
+                let out = Outcome { kind: "ok", msg: String::new(), val: Value::Null };
+                self.emit("Foreign", r, json!({"key": tok(&key)}), &out, json!({}));
+            }
             "snapshot" => {
                 let m = &self.reps[r].as_ref().unwrap().melda;
                 let out = call(pool, || m.stage_full_snapshot(), |_| Value::Null);
@@ -969,7 +977,8 @@ pub fn random_spec(run: u64, seed: u64, profile: &str) -> Value {
             83..=85 => json!({"op": "export_replay", "r": r}),
             86..=88 => json!({"op": "reload_until", "r": r, "hs": p.below(16)}),
             89..=90 => json!({"op": "reload", "r": r}),
-            91..=92 => json!({"op": "snapshot", "r": r}),
+            91 => json!({"op": "snapshot", "r": r}),
+            92 => json!({"op": "foreign", "r": r, "n": p.below(6)}),
             93..=95 => json!({"op": "reopen", "r": r}),
             96..=97 if nrep > 1 && profile != "multi" => json!({"op": "copy", "r": r, "s": s, "n": p.below(8)}),
             _ => json!({"op": "commit", "r": r, "seed": p.next()}),
